@@ -151,15 +151,15 @@ class odict(dict):
         for a in pa:
             if hasattr(a,'get'): #positional arg is dictionary
                 for k in a:
-                    if k not in self._keys:
+                    if k not in self:
                         self[k] = a[k]
             else: #positional arg is sequence of duples (k,v)
                 for k, v in a:
-                    if k not in self._keys:
+                    if k not in self:
                         self[k] = v
 
         for k in kwa:
-            if k not in self._keys:
+            if k not in self:
                 self[k] = kwa[k]
 
     def sift(self, fields=None):
